@@ -285,7 +285,7 @@ package tbtc
 //@   ensures result != nil && !old(allocated(result))
 //@ func depositSweepAction.execute
 //@   property C46
-//@   modifies ghost.obsConfirmed, ghost.obsMempool, ghost.obsWallet, ghost.obsConfirmedOK
+//@   modifies ghost.obsConfirmed, ghost.obsMempool, ghost.obsWallet, ghost.obsConfirmedOK, ghost.txIn, ghost.txOut, ghost.txIns, ghost.txOuts, ghost.txLastIn, ghost.txLastOut, ghost.redChange, alloc
 //@   assert call:walletTransactionExecutor.signTransaction : [signing-starts-no-earlier-than-action-start] arg2 >= dsa.proposalProcessingStartBlock
 //@   assert call:walletTransactionExecutor.signTransaction : [signing-ends-margin-before-expiry] arg3 + depositSweepSigningTimeoutSafetyMarginBlocks == dsa.proposalExpiryBlock
 //@   assert call:walletTransactionExecutor.signTransaction : [room-for-one-retry-loop] arg3 >= arg2 + signingAttemptsLimit * signingAttemptMaximumBlocks()
@@ -310,7 +310,7 @@ package tbtc
 //@   ensures result != nil && !old(allocated(result))
 //@ func redemptionAction.execute
 //@   property C46
-//@   modifies ghost.obsConfirmed, ghost.obsMempool, ghost.obsWallet, ghost.obsConfirmedOK
+//@   modifies ghost.obsConfirmed, ghost.obsMempool, ghost.obsWallet, ghost.obsConfirmedOK, ghost.txIn, ghost.txOut, ghost.txIns, ghost.txOuts, ghost.txLastIn, ghost.txLastOut, ghost.redChange, alloc
 //@   assert call:walletTransactionExecutor.signTransaction : [signing-starts-no-earlier-than-action-start] arg2 >= ra.proposalProcessingStartBlock
 //@   assert call:walletTransactionExecutor.signTransaction : [signing-ends-margin-before-expiry] arg3 + redemptionSigningTimeoutSafetyMarginBlocks == ra.proposalExpiryBlock
 //@   assert call:walletTransactionExecutor.signTransaction : [room-for-one-retry-loop] arg3 >= arg2 + signingAttemptsLimit * signingAttemptMaximumBlocks()
@@ -335,7 +335,7 @@ package tbtc
 //@   ensures result != nil && !old(allocated(result))
 //@ func movingFundsAction.execute
 //@   property C46
-//@   modifies ghost.obsConfirmed, ghost.obsMempool, ghost.obsWallet, ghost.obsConfirmedOK
+//@   modifies ghost.obsConfirmed, ghost.obsMempool, ghost.obsWallet, ghost.obsConfirmedOK, ghost.txIn, ghost.txOut, ghost.txIns, ghost.txOuts, ghost.txLastIn, ghost.txLastOut, ghost.redChange, alloc
 //@   assert call:walletTransactionExecutor.signTransaction : [signing-starts-no-earlier-than-action-start] arg2 >= mfa.proposalProcessingStartBlock
 //@   assert call:walletTransactionExecutor.signTransaction : [signing-ends-margin-before-expiry] arg3 + movingFundsSigningTimeoutSafetyMarginBlocks == mfa.proposalExpiryBlock
 //@   assert call:walletTransactionExecutor.signTransaction : [room-for-one-retry-loop] arg3 >= arg2 + signingAttemptsLimit * signingAttemptMaximumBlocks()
@@ -360,7 +360,7 @@ package tbtc
 //@   ensures result != nil && !old(allocated(result))
 //@ func movedFundsSweepAction.execute
 //@   property C46
-//@   modifies ghost.obsConfirmed, ghost.obsMempool, ghost.obsWallet, ghost.obsConfirmedOK
+//@   modifies ghost.obsConfirmed, ghost.obsMempool, ghost.obsWallet, ghost.obsConfirmedOK, ghost.txIn, ghost.txOut, ghost.txIns, ghost.txOuts, ghost.txLastIn, ghost.txLastOut, ghost.redChange, alloc
 //@   assert call:walletTransactionExecutor.signTransaction : [signing-starts-no-earlier-than-action-start] arg2 >= mfsa.proposalProcessingStartBlock
 //@   assert call:walletTransactionExecutor.signTransaction : [signing-ends-margin-before-expiry] arg3 + movedFundsSweepSigningTimeoutSafetyMarginBlocks == mfsa.proposalExpiryBlock
 //@   assert call:walletTransactionExecutor.signTransaction : [room-for-one-retry-loop] arg3 >= arg2 + signingAttemptsLimit * signingAttemptMaximumBlocks()
@@ -408,7 +408,7 @@ package tbtc
 //@   modifies alloc
 
 //@ func walletTransactionExecutor.signTransaction
-//@   property C46
+//@   property C46 C27
 //@   opt noframe 1
 //@   loop 1 invariant len(containers) == len(signatures)
 //@   assert call:withCancelOnBlock : [signing-context-ends-at-timeout] arg1 == signingTimeoutBlock
@@ -593,6 +593,7 @@ package tbtc
 //@   property C37
 //@   requires newDKGSeed != nil
 //@   binds ghost.cacheSeen = false
+//@   binds ghost.tcShared = true
 //@   modifies ghost.cacheAdds, ghost.cacheLastAdd, ghost.cacheLastKey, ghost.cacheLastCache, ghost.tcContent, ghost.tcHit
 //@   ensures [proceeds-only-as-the-one-inserting-caller] result ==> ghost.cacheAdds == old(ghost.cacheAdds) + 1 && ghost.cacheLastAdd && ghost.cacheLastCache == d.dkgSeedCache && ghost.cacheLastKey == big2str(bigval(newDKGSeed))
 //@   ensures [duplicate-only-if-seen-or-the-atomic-insert-failed] !result ==> (ghost.cacheAdds == old(ghost.cacheAdds) && ghost.cacheSeen) || (ghost.cacheAdds == old(ghost.cacheAdds) + 1 && !ghost.cacheLastAdd && ghost.cacheLastCache == d.dkgSeedCache && ghost.cacheLastKey == big2str(bigval(newDKGSeed)))
@@ -601,6 +602,7 @@ package tbtc
 //@   property C37
 //@   requires newDKGResultSeed != nil
 //@   binds ghost.cacheSeen = false
+//@   binds ghost.tcShared = true
 //@   modifies ghost.cacheAdds, ghost.cacheLastAdd, ghost.cacheLastKey, ghost.cacheLastCache, ghost.tcContent, ghost.tcHit
 //@   ensures [proceeds-only-as-the-one-inserting-caller] result ==> ghost.cacheAdds == old(ghost.cacheAdds) + 1 && ghost.cacheLastAdd && ghost.cacheLastCache == d.dkgResultHashCache
 //@   ensures [duplicate-only-if-seen-or-the-atomic-insert-failed] !result ==> (ghost.cacheAdds == old(ghost.cacheAdds) && ghost.cacheSeen) || (ghost.cacheAdds == old(ghost.cacheAdds) + 1 && !ghost.cacheLastAdd && ghost.cacheLastCache == d.dkgResultHashCache)
@@ -609,6 +611,7 @@ package tbtc
 //@ func deduplicator.notifyWalletClosed
 //@   property C37
 //@   binds ghost.cacheSeen = false
+//@   binds ghost.tcShared = true
 //@   modifies ghost.cacheAdds, ghost.cacheLastAdd, ghost.cacheLastKey, ghost.cacheLastCache, ghost.tcContent, ghost.tcHit
 //@   ensures [proceeds-only-as-the-one-inserting-caller] result ==> ghost.cacheAdds == old(ghost.cacheAdds) + 1 && ghost.cacheLastAdd && ghost.cacheLastCache == d.walletClosedCache && ghost.cacheLastKey == hexenc(WalletID[0:32])
 //@   ensures [duplicate-only-if-seen-or-the-atomic-insert-failed] !result ==> (ghost.cacheAdds == old(ghost.cacheAdds) && ghost.cacheSeen) || (ghost.cacheAdds == old(ghost.cacheAdds) + 1 && !ghost.cacheLastAdd && ghost.cacheLastCache == d.walletClosedCache && ghost.cacheLastKey == hexenc(WalletID[0:32]))
@@ -960,7 +963,6 @@ package tbtc
 //@   property C26
 //@   arith math
 //@   opt noframe 1
-//@   requires forall k int :: 0 <= k && k < len(deposits) ==> deposits[k] != nil && deposits[k].Utxo != nil
 //@   modifies ghost.txIn, ghost.txOut, ghost.txIns, ghost.txOuts, ghost.txLastIn, ghost.txLastOut, alloc
 //@   ensures [spends-exactly-the-main-utxo-and-every-deposit] err == nil ==> ghost.txIns == len(deposits) + ite(walletMainUtxo != nil, 1, 0)
 //@   ensures [pays-exactly-the-proposed-fee] err == nil ==> ghost.txIn - ghost.txOut == fee
@@ -994,7 +996,6 @@ package tbtc
 //@   property C26
 //@   arith math
 //@   opt noframe 1
-//@   requires forall k int :: 0 <= k && k < len(requests) ==> requests[k] != nil
 //@   modifies ghost.txIn, ghost.txOut, ghost.txIns, ghost.txOuts, ghost.txLastIn, ghost.txLastOut, alloc
 //@   ensures [spends-exactly-the-main-utxo] err == nil ==> ghost.txIns == 1 && ghost.txIn == walletMainUtxo.Value
 //@   modifies ghost.redChange
